@@ -102,7 +102,7 @@ def page_jobs(prop, tier):
     t = 200 if tier == "quick" else 800
     out = []
     for enc, opt, sm in (("plain", 1, 0), ("dict", 1, 0), ("dict", 1, 1), ("delta", 0, 0), ("bool_rle", 1, 0),
-                         ("dict", 0, 0)):
+                         ("dict", 0, 0), ("dict", 0, 1)):
         j = ch(prop, "vf/pyshim/h_page.py", "h_page_v1", t, ["core.read_data_page", "core.read_def"],
                shape=dict(encoding=enc, optional=opt, selfmade=sm),
                env=dict(VERIF_ENC=enc, VERIF_OPTIONAL=opt, VERIF_SELFMADE=sm))
